@@ -8,17 +8,17 @@ use std::io::Write;
 
 fn tree_base() -> Vec<Entry> {
     let mut v = vec![Entry::dir("src")];
-    for d in ["src/d", "src/d/e", "src/f", "src/f/a"] {
+    for d in ["src/d", "src/d/e", "src/f", "src/f/a", "src/src", "src/src/d"] {
         v.push(Entry::dir(d));
     }
-    for f in ["src/a", "src/b", "src/a.txt", "src/.h", "src/d/a", "src/d/b.txt", "src/d/e/a", "src/d/e/c", "src/f/a/z"] {
+    for f in ["src/a", "src/b", "src/a.txt", "src/.h", "src/d/a", "src/d/b.txt", "src/d/e/a", "src/d/e/c", "src/f/a/z", "src/src/a", "src/src/d/a"] {
         v.push(Entry::file(f, f));
     }
     v
 }
 
 pub fn alphabet() -> Vec<&'static str> {
-    vec!["a", "/a", "a/", "d", "d/", "/d/", "*", "*.txt", "?", "d/*", "**/a", "d/**", "!a", "!d/a", "!d/", "!*.txt", "!d", "#c", "", ".h", ".*", "d/e", "e/", "**/e/", "/d/a", "f/a", "!f/a/"]
+    vec!["a", "/a", "a/", "d", "d/", "/d/", "*", "*.txt", "?", "d/*", "**/a", "d/**", "!a", "!d/a", "!d/", "!*.txt", "!d", "#c", "", ".h", ".*", "d/e", "e/", "**/e/", "/d/a", "f/a", "!f/a/", "/src/a", "/d", "src/d/"]
 }
 
 /// ask git which of the source entries are ignored under this .gitignore
@@ -170,7 +170,7 @@ pub fn run(ctx: &Ctx) -> Report {
     let lines = if ctx.quick() { 2 } else { 3 };
     let mut rep = Report::new(
         "model_checking",
-        "a fixed 13-entry source tree x every .gitignore of 1..k lines over a 27-pattern alphabet (literals, *, ?, **/, trailing /, leading /, ! negation, comment, blank line, hidden names) x both drivers, plus controls without the option / without the file; oracle: git itself (`git check-ignore --no-index --stdin` in a scratch repository with global and system configuration disabled) decides each path, an entry is expected iff neither it nor an ancestor is ignored; the destination path set must equal the expected set; non-trivial = git ignores at least one entry, per distinct (scenario, trace)",
+        "a fixed 17-entry source tree (including a directory named like the source root) x every .gitignore of 1..k lines over a 30-pattern alphabet (literals, *, ?, **/, trailing /, leading /, ! negation, comment, blank line, hidden names) x both drivers, plus controls without the option / without the file; oracle: git itself (`git check-ignore --no-index --stdin` in a scratch repository with global and system configuration disabled) decides each path, an entry is expected iff neither it nor an ancestor is ignored; the destination path set must equal the expected set; non-trivial = git ignores at least one entry, per distinct (scenario, trace)",
     );
     crate::explore::SNAP_BEFORE.store(false, std::sync::atomic::Ordering::Relaxed);
     let j: Judge = &judge;
